@@ -267,7 +267,7 @@ impl<'tcx> M<'tcx> {
     pub fn resolve(&mut self, p: &Ptr, count: usize) -> R<Vec<PE>> {
         if p.off == 0 {
             let v = self.get(p.alloc, &p.path)?;
-            if vleaves(&v) == count || !matches!(v, V::Agg(_)) {
+            if vleaves(&v) == count || !matches!(v, V::Agg(_)) || has_model(&v) {
                 return Ok(p.path.clone());
             }
         }
@@ -328,9 +328,12 @@ impl<'tcx> M<'tcx> {
             if !same_shape(slot, &v) {
                 let mut l = vec![];
                 flatten(&v, &mut l);
-                let mut it = l.into_iter();
-                fill(slot, &mut it);
-                return Ok(());
+                if l.len() == vleaves(slot) {
+                    let mut it = l.into_iter();
+                    fill(slot, &mut it);
+                    return Ok(());
+                }
+                // modelled library objects do not have the leaf structure of their type: replace wholesale
             }
         }
         *slot = v;
@@ -428,6 +431,14 @@ impl<'tcx> M<'tcx> {
         }
         let leaves: Vec<V<'tcx>> = (0..n).map(|k| V::T(self.terms.op(&format!("ret:{}", k), vec![base]))).collect();
         reshape(self.tcx, t, &mut leaves.into_iter())
+    }
+}
+
+pub fn has_model(v: &V) -> bool {
+    match v {
+        V::Agg(f) => f.iter().any(has_model),
+        V::SliceIter(..) | V::Obj(..) => true,
+        _ => false,
     }
 }
 
